@@ -499,6 +499,14 @@ Proof.
         apply (chain_conn p m k0 keys Hm Hwm Hfrag Hkeys q o jj wq Hqk Hok Hkw Hjj Co).
 Qed.
 
+Theorem portrefs_dev x dev : valid d x -> dev_at d x = Ok dev -> dev_at d1 x = Ok dev.
+Proof.
+  destruct x as [p s k|p i e port k|p s k]; cbn [valid dev_at]; [tauto| |tauto].
+  intros [m [x [w [Hm [Hf _]]]]]. rewrite Hm. cbn [bind]. rewrite Hf. cbn [ofopt bind].
+  destruct (pr_vmod_fwd p m Hm) as [m' [Hm' HR]]. destruct (pr_find_fwd m m' i x HR Hf) as [x' [Hf' [_ Ho]]].
+  rewrite Hm'. cbn [bind]. rewrite Hf'. cbn [ofopt bind]. rewrite Ho. tauto.
+Qed.
+
 Theorem portrefs_same_net x y : valid d x -> valid d y -> (same_net d x y <-> same_net d1 x y).
 Proof.
   intros Hx Hy. rewrite !same_net_meet_r.
